@@ -32,6 +32,21 @@ pub fn set_bits(m: &mut [u32], sb: u32, eb: u32, v: u32) {
     }
 }
 
+/// Element-wise slice equality (keeps the verifier away from memcmp and its byte-count unwinding).
+pub fn slices_eq(a: &[u32], b: &[u32]) -> bool {
+    if a.len() != b.len() {
+        return false;
+    }
+    let mut i = 0;
+    while i < a.len() {
+        if a[i] != b[i] {
+            return false;
+        }
+        i += 1;
+    }
+    true
+}
+
 /// Byte-wise string equality (keeps the verifier away from memcmp on symbolic pointers).
 pub fn str_eq(a: &str, b: &str) -> bool {
     let (a, b) = (a.as_bytes(), b.as_bytes());
